@@ -595,7 +595,8 @@ def oracle_stream(events, truth, res):
 
 
 # ------------------------------------------------------------------------------------------------ end to end
-E2E_OPTS = [["--flow"], ["--flow", "--no_mp_sync"], ["--flow", "--keep_prep"], ["--flow", "--disable_tb"]]
+E2E_OPTS = [["--flow"], ["--flow", "--no_mp_sync"], ["--flow", "--keep_prep"], ["--flow", "--disable_tb"],
+            ["--flow", "-F", "XsfM"], ["--flow", "--drop_globals"], ["--flow", "-t"]]
 
 
 def run_e2e(sc, opts, work):
